@@ -29,9 +29,17 @@ var _ *imapserver.FetchWriter
 
 // SEARCH results only contain sequence numbers the client knows.
 //
+// With RETURN (SAVE) the saved result becomes exactly the UIDs this search
+// found - also when it found none (an empty result replaces the older one).
+//
+// @ lemma
+// @ requires options.ReturnSave ==> __same(mbox.searchRes, uidSet)
+func lemmaSaved(mbox *MailboxView, options *imap.SearchOptions, uidSet imap.UIDSet) {}
+
 //@ func (mbox *MailboxView) Search(numKind imapserver.NumKind, criteria *imap.SearchCriteria, options *imap.SearchOptions) (data *imap.SearchData, err error)
-//@   props C08:callsite,pre@call
-//@   requires mbox != nil && imapserver.TrackerWF(mbox.tracker)
+//@   props C08:callsite,pre@call C09:pre@call
+//@   requires mbox != nil && imapserver.TrackerWF(mbox.tracker) && options != nil
+//@   at "return &data, nil" with (uidSet imap.UIDSet) do lemmaSaved(mbox, options, uidSet)
 //@   callsite SeqSet.AddNum(s *imap.SeqSet, nums []uint32) requires forall k int :: 0 <= k && k < len(nums) ==> nums[k] != 0
 
 // MOVE reports each removed message exactly once: removing the messages queues
